@@ -68,6 +68,7 @@ struct Params {
   int di = 0, ci = 0;
   int dirarg_mode[2] = {0, 0};  // TWODIRS: 0 real, 1 NULL, 2 ""
   std::vector<std::string> dir_override;  // TWODIRS: other directory names (econftool: /usr/etc, /etc)
+  bool join_option = false;               // add JOIN_SAME_ENTRIES=1 to the option string (no effect on merge-tame contents)
 
   bool dropins_only() const { return name_mode != 0; }
   std::string sfx() const { return suffix_mode >= 2 ? std::string() : "." + sfx_word; }
@@ -99,12 +100,13 @@ struct TreeOpts {
   bool two_or_three_layers = false;  // C12
   int fixed_di = -1;
   bool multiline_values = false;  // some values get a continuation line (econftool prints them on several lines)
+  std::string comment_lines;      // if set: whole-line comments starting with one of these characters are sprinkled in
 };
 
 // ---------------------------------------------------------------- content
 // merge-tame content: sections {"",A,B,C}, keys k1..k5, each (section,key) at
 // most once, sections contiguous, group-less first, values tagged with origin.
-inline void gen_tame_content(Src &s, TFile &f, const std::string &D, bool multiline = false) {
+inline void gen_tame_content(Src &s, TFile &f, const std::string &D, bool multiline = false, const std::string &comment_lines = "") {
   static const char *secs[3] = {"A", "B", "C"};
   std::vector<std::string> order = {""};
   // random order of the named sections
@@ -135,6 +137,8 @@ inline void gen_tame_content(Src &s, TFile &f, const std::string &D, bool multil
       static const char *const KEYNAMES[6] = {"", "k1", "tk2", "nf3", "rv4", "k5"};
       std::string key = KEYNAMES[k];
       std::string val = f.where + ":" + std::to_string(n++);
+      if (!comment_lines.empty() && s.chance(30))
+        f.text += std::string(1, comment_lines[s.below((uint32_t)comment_lines.size())]) + " note " + std::to_string(n) + "\n";
       if (multiline && D != " " && s.chance(25)) {
         int extra = 1 + (int)s.below(3);
         std::string mv = val, mt = key + sep + val + "\n";
@@ -195,6 +199,8 @@ inline Params gen_params(Src &s, const TreeOpts &o) {
     // occasionally a missing directory argument
     if (s.chance(12)) p.dirarg_mode[s.below(2)] = 1 + (int)s.below(2);
   }
+  if (s.chance(15)) p.name = "vf.ex";  // a configuration name with a dot of its own
+  p.join_option = s.chance(15);
   if (!p.dropins_only()) {
     p.confdirs_mode = (int)s.weighted({70, p.scheme == S_TWODIRS ? 0 : 12, 12, p.scheme == S_TWODIRS ? 0 : 6});
     std::vector<std::string> uni = {".d", ".dropins", ".cfg.d"};
@@ -238,14 +244,14 @@ inline std::vector<std::string> layer_dirs(const Params &p, int nlayers) {
 }
 
 inline TFile gen_file_node(Src &s, const std::string &name, const std::string &where, const std::string &D,
-                           bool allow_links, bool is_main, bool multiline = false) {
+                           bool allow_links, bool is_main, bool multiline = false, const std::string &comment_lines = "") {
   TFile f;
   f.name = name;
   f.where = where;
   size_t k = s.weighted({70, is_main ? 10 : 6, allow_links ? (is_main ? 10 : 5) : 0, allow_links ? 5 : 0});
   f.kind = (FKind)k;
   if (f.kind == F_REGULAR || f.kind == F_LINK_REGULAR) {
-    gen_tame_content(s, f, D, multiline);
+    gen_tame_content(s, f, D, multiline, comment_lines);
     if (f.content.entries.empty() && f.kind == F_REGULAR && f.text.empty()) f.kind = F_EMPTY;
   }
   return f;
@@ -284,7 +290,7 @@ inline Tree gen_tree(Src &s, const Params &p, const TreeOpts &o) {
     auto lsp = s.span();
     // main file
     if (!p.dropins_only() && !L.dir_arg_missing && s.chance(45)) {
-      L.main.reset(new TFile(gen_file_node(s, name + sfx, L.label + "/" + name + sfx, D, o.allow_links, true, o.multiline_values)));
+      L.main.reset(new TFile(gen_file_node(s, name + sfx, L.label + "/" + name + sfx, D, o.allow_links, true, o.multiline_values, o.comment_lines)));
     }
     // distractor main-like files
     if (!L.dir_arg_missing && s.chance(15)) {
@@ -326,7 +332,7 @@ inline Tree gen_tree(Src &s, const Params &p, const TreeOpts &o) {
         if (fn.empty() || fn == "." || fn == "..") continue;
         if (std::find(used_names.begin(), used_names.end(), fn) != used_names.end()) continue;
         used_names.push_back(fn);
-        TFile f = gen_file_node(s, fn, L.label + "/" + pf + "/" + fn, D, o.allow_links, false, o.multiline_values);
+        TFile f = gen_file_node(s, fn, L.label + "/" + pf + "/" + fn, D, o.allow_links, false, o.multiline_values, o.comment_lines);
         d.files.push_back(f);
         if (effective) budget--;
       }
@@ -593,6 +599,7 @@ inline ReadResult read_tree(const Tree &t, const Params &p, const std::string &r
       opt += ";CONFIG_DIRS=";
       for (size_t i = 0; i < p.obj_postfixes.size(); i++) opt += (i ? ":" : "") + p.obj_postfixes[i];
     }
+    if (p.join_option) opt += ";JOIN_SAME_ENTRIES=1";
     r.options = opt;
     econf_file *kf = nullptr;
     econf_err e = econf_newKeyFile_with_options(&kf, opt.c_str());
